@@ -1785,6 +1785,10 @@ PPL::Polyhedron::refine_with_congruence(const Congruence& cg) {
     const Constraint c(le, Constraint::EQUALITY, NECESSARILY_CLOSED);
     refine_no_check(c);
   }
+  else if (cg.is_inconsistent()) {
+    // As in add_congruence() and refine_with_congruences().
+    set_empty();
+  }
 }
 
 void
